@@ -280,7 +280,7 @@ func (wtr *JSONWtr) writeMember(p *node.Path, v val.Value, topLevel bool) error 
 		case val.FmtIdentityRef:
 			idtyStr := item.String()
 			leafMod := meta.OriginalModule(p.Meta)
-			bases := p.Meta.(meta.HasType).Type().Base()
+			bases := identityBases(p.Meta.(meta.HasType).Type())
 			idty := meta.FindIdentity(bases, idtyStr)
 			if idty == nil {
 				return fmt.Errorf("could not find ident '%s'", idtyStr)
@@ -360,4 +360,19 @@ func (wtr *JSONWtr) writeString(s string) error {
 	writeString(clean, s, true)
 	_, ioErr := wtr._out.Write(clean.Bytes())
 	return ioErr
+}
+
+// identityBases are the bases an identityref value of this type may derive from,
+// seen through leafrefs and union members
+func identityBases(t *meta.Type) []*meta.Identity {
+	if f := t.Format().Single(); f == val.FmtLeafRef {
+		if target := t.Resolve(); target != nil && target != t {
+			return identityBases(target)
+		}
+	}
+	bases := t.Base()
+	for _, u := range t.Union() {
+		bases = append(bases, identityBases(u)...)
+	}
+	return bases
 }
